@@ -508,6 +508,45 @@ def order_rule(ctx, m):
             else:
                 ctx.ok({'slot': s.key(), 'impl': impl})
 
+def fastpath_rule(ctx, repo):
+    """C19.7 (*fold*): the contended simulator must not take the uncontended fast handlers.  CMIOSimulator.__init__ is folded up to its
+    call of Simulator.__init__ for every caller configuration (none; fast_djnz / fast_ldir on, off, absent): the configuration handed on
+    has both switched off (the fast LDIR / DJNZ handlers add no contention delays)."""
+    ctx.rule('C19.7-no-fast-paths', 'CMIOSimulator.__init__ hands Simulator.__init__ a configuration with fast_djnz and fast_ldir off, whatever the caller passed', floor=6)
+    from sa.core.classfold import ClassFolder, Inst
+    from sa.core.pyfacts import FOLDED_NONE
+    m = repo.mod('cmiosimulator')
+    if 'CMIOSimulator' not in m.classes:
+        raise FactError('skoolkit/cmiosimulator.py: CMIOSimulator not found')
+    cases = [None, {}, {'fast_djnz': True, 'fast_ldir': True}, {'fast_djnz': True}, {'fast_ldir': True, 'frame_duration': 70908}, {'fast_djnz': False, 'fast_ldir': False}, {'int_active': 36, 'fast_ldir': 1}]
+    for cfg in cases:
+        for size in (65536, 0x20000):
+            seen = []
+            def hook(n, lit):
+                if isinstance(n, ast.Call) and isinstance(n.func, ast.Attribute) and n.func.attr == '__init__' and isinstance(n.func.value, ast.Call) \
+                   and isinstance(n.func.value.func, ast.Name) and n.func.value.func.id == 'super':
+                    seen.append((lit._seq(n.args), lit._kw(n.keywords)))
+                    return FOLDED_NONE
+                return None
+            hook.wants_lit = True
+            cf = ClassFolder(repo, 'cmiosimulator', hook)
+            inst = Inst('cmiosimulator', 'CMIOSimulator', cf)
+            name = 'config %s, %dK' % (cfg, 48 if size == 65536 else 128)
+            try:
+                cf.call(inst, '__init__', [0] * size, None, None, None if cfg is None else dict(cfg))
+            except NotLiteral as e:
+                ctx.limit('fast paths ' + name, 'CMIOSimulator.__init__ not foldable: %s' % e)
+                continue
+            if len(seen) != 1:
+                ctx.violation('fast paths', 'skoolkit/cmiosimulator.py', '%s: Simulator.__init__ is called %d times by CMIOSimulator.__init__' % (name, len(seen)))
+                continue
+            args, kw = seen[0]
+            passed = kw.get('config', args[3] if len(args) > 3 else None)
+            if not isinstance(passed, dict) or passed.get('fast_djnz') or passed.get('fast_ldir') or 'fast_djnz' not in passed or 'fast_ldir' not in passed:
+                ctx.violation('fast paths', 'skoolkit/cmiosimulator.py (CMIOSimulator.__init__)', '%s: Simulator.__init__ receives config %s - the uncontended fast DJNZ / LDIR handlers would be installed in the contended simulator' % (name, passed))
+            else:
+                ctx.ok({'case': name})
+
 def run(ctx):
     repo = pyfacts.Repo(ctx.repo_root)
     m = simfacts.SimModel(repo)
@@ -520,6 +559,7 @@ def run(ctx):
     compare_slots(ctx, m, (('cm', 'cc'),), 'C19.5-patterns')
     predicate_rules(ctx, repo, m)
     order_rule(ctx, m)
+    fastpath_rule(ctx, repo)
     ctx.assume('the documented ULA pattern: 192 lines, 128 contended T-states per line from T=14335 (48K, 224 T/line) / 14361 (128K, 228 T/line), delays 6,5,4,3,2,1,0,0')
     from sa.rules import memo
     memo.run_for(ctx, repo, 'C19')
